@@ -34,6 +34,7 @@ pub fn check() -> Check {
             Family { name: "byz_pkesk", gen: gen_pkesk, run: run_pkesk },
             Family { name: "byz_ecdh", gen: gen_ecdh, run: run_ecdh },
             Family { name: "byz_sig_mpis", gen: gen_sig_mpis, run: run_sig_mpis },
+            Family { name: "byz_cross_alg", gen: gen_cross_alg, run: run_cross_alg },
             Family { name: "byz_octets", gen: gen_octets, run: run_octets },
         ],
         assumptions: vec![
@@ -838,6 +839,146 @@ fn run_sig_mpis(plan: &Value, rec: &mut Rec) {
         if let Err(pn) = r {
             rec.violation("panic", &norm_loc(&pn.loc), format!("signature by {} with its value re-made from MPIs of {l0} and {l1} octets ({style}): {}", k.name, pn.msg), vplan);
         }
+    }
+}
+
+// ------------------------------------------------------------------ signatures of one algorithm presented to keys of another; key packets in the v2/v3 layout
+
+const ALG_KEYS: [&str; 11] = ["ed25519-v4", "ed25519-v6", "edlegacy-v4", "ed448-v6", "p256-v4", "p384-v6", "p521-v4", "k256-v4", "rsa-v4", "dsa-v4", "ed25519-v4-locked"];
+
+fn gen_cross_alg(_ctx: &GenCtx) -> Vec<Value> {
+    let mut plans = Vec::new();
+    for a in ALG_KEYS {
+        for b in ALG_KEYS {
+            if a != b {
+                plans.push(json!({"what": "cross", "signer": a, "victim": b}));
+            }
+        }
+    }
+    for k in keys::pool() {
+        for version in [2u8, 3] {
+            plans.push(json!({"what": "legacy_layout", "key": k.name, "version": version}));
+        }
+    }
+    plans
+}
+
+fn run_cross_alg(plan: &Value, rec: &mut Rec) {
+    seams::set_poke_after_error(true);
+    let mut h = Fnv::default();
+    h.str(&plan.to_string());
+    rec.eval(h.0, true);
+    if jstr(plan, "what") == "legacy_layout" {
+        // [version 4|6][created 4][alg][material]  ->  [version 2|3][created 4][validity 2][alg][material]
+        let k = keys::get(jstr(plan, "key"));
+        let version = jusize(plan, "version") as u8;
+        let Ok(cert) = k.public.to_bytes() else { return };
+        let Ok(pk) = deframe(&cert) else { return };
+        let mut out = Vec::new();
+        let mut changed = 0;
+        for p in &pk {
+            if matches!(p.tag, 6 | 14) && p.body.len() > 6 {
+                let skip = if p.body[0] == 6 { 10 } else { 6 }; // v6 key packets carry a 4-octet material length
+                let mut b = vec![version];
+                b.extend_from_slice(&p.body[1..5]);
+                b.extend_from_slice(&[0, 0]);
+                b.push(p.body[5]);
+                b.extend_from_slice(&p.body[skip.min(p.body.len())..]);
+                out.extend_from_slice(&frame(p.tag, &b, &LenForm::NewMinimal).unwrap());
+                changed += 1;
+            } else {
+                out.extend_from_slice(&cert[p.start..p.end]);
+            }
+        }
+        if changed == 0 {
+            return;
+        }
+        rec.count("fault:F-byz:key-packets-in-v2-v3-layout");
+        rec.sample(json!({"what": "legacy_layout", "key": k.name, "version": version}));
+        let bytes = Arc::new(out);
+        let verifiers = vec![k.name];
+        let r = guard(|| {
+            process("pubkey", &bytes, false, &Opener::None, &Sched::Full, 8192, &[], &Consumer::ReadLoop(vec![64]), &verifiers);
+            // the key packets one by one, and used as a verifying / encrypting key
+            for p in PacketParser::new(&bytes[..]).take(50).flatten() {
+                match p {
+                    pgp::packet::Packet::PublicKey(key) => {
+                        let _ = key.fingerprint();
+                        let _ = key.legacy_key_id();
+                        let _ = key.to_bytes();
+                        if let Some(sig) = k.public.details.users.first().and_then(|u| u.signatures.first()) {
+                            let _ = sig.verify_certification(&key, pgp::types::Tag::UserId, &k.public.details.users[0].id);
+                            let _ = sig.verify_key(&key);
+                        }
+                    }
+                    pgp::packet::Packet::PublicSubkey(key) => {
+                        let _ = key.fingerprint();
+                        let _ = key.legacy_key_id();
+                        let _ = key.to_bytes();
+                        let mut rng = SimRng::new(3, "legacy-layout", false);
+                        let _ = key.encrypt(&mut rng, &[9u8; 17], EskType::V3_4);
+                    }
+                    _ => {}
+                }
+            }
+        });
+        if let Err(pn) = r {
+            rec.violation("panic", &norm_loc(&pn.loc), format!("certificate of {} with its key packets in the version {version} layout: {}", k.name, pn.msg), plan.clone());
+        }
+        return;
+    }
+    let signer = keys::get(jstr(plan, "signer"));
+    let victim = keys::get(jstr(plan, "victim"));
+    let content = b"signed by one key, attributed to another";
+    let hash = match signer.name {
+        "p384-v6" => pgp::crypto::hash::HashAlgorithm::Sha384,
+        "p521-v4" | "ed448-v6" => pgp::crypto::hash::HashAlgorithm::Sha512,
+        _ => pgp::crypto::hash::HashAlgorithm::Sha256,
+    };
+    rec.count("fault:F-byz:signature-attributed-to-a-key-of-another-algorithm");
+    rec.sample(json!({"what": "cross", "signer": signer.name, "victim": victim.name}));
+    let r = guard(|| -> Result<(), String> {
+        use pgp::packet::{Subpacket, SubpacketData};
+        let mut rng = SimRng::new(17, "c04cross", false);
+        // the issuer subpackets name the victim: fingerprint (hashed) and, for v4 victims, key id (unhashed)
+        let mut unhashed = vec![];
+        if !victim.v6 {
+            unhashed.push(Subpacket::regular(SubpacketData::IssuerKeyId(victim.public.legacy_key_id())).map_err(|e| e.to_string())?);
+        }
+        let cfg = pgp::composed::SubpacketConfig::UserDefined {
+            hashed: vec![
+                Subpacket::regular(SubpacketData::SignatureCreationTime(pgp::types::Timestamp::now())).map_err(|e| e.to_string())?,
+                Subpacket::regular(SubpacketData::IssuerFingerprint(victim.public.fingerprint())).map_err(|e| e.to_string())?,
+            ],
+            unhashed,
+        };
+        let sig = DetachedSignature::sign_binary_data_with_subpackets(&mut rng, &*signer.secret, &Password::from(signer.password), hash, &content[..], cfg).map_err(|e| e.to_string())?;
+        // through the wire, then under the victim's key: Ok or Err
+        let wire = sig.to_bytes().map_err(|e| e.to_string())?;
+        let back = DetachedSignature::from_bytes(&wire[..]).map_err(|e| e.to_string())?;
+        let _ = back.verify(&victim.public, &content[..]);
+        let _ = back.signature.verify(&victim.public.primary_key, &content[..]);
+        for sub in &victim.public.public_subkeys {
+            let _ = back.signature.verify(&sub.key, &content[..]);
+        }
+        // and as the signature of a message: one-pass packet naming the victim
+        let mut ops_body = vec![3u8, 0, u8::from(hash), u8::from(back.signature.config().map(|c| c.pub_alg).unwrap_or(victim.public.algorithm()))];
+        ops_body.extend_from_slice(victim.public.legacy_key_id().as_ref());
+        ops_body.push(1);
+        let mut lit = vec![b'b', 0, 0, 0, 0, 0];
+        lit.extend_from_slice(content);
+        let mut msg = frame(4, &ops_body, &LenForm::NewMinimal).ok_or("frame")?;
+        msg.extend_from_slice(&frame(11, &lit, &LenForm::NewMinimal).ok_or("frame")?);
+        msg.extend_from_slice(&wire);
+        let bytes = Arc::new(msg);
+        let verifiers = vec![victim.name];
+        process("msg", &bytes, false, &Opener::None, &Sched::Full, 8192, &[], &Consumer::ReadLoop(vec![64]), &verifiers);
+        Ok(())
+    });
+    match r {
+        Err(pn) => rec.violation("panic", &norm_loc(&pn.loc), format!("signature made by {} and attributed to {}: {}", signer.name, victim.name, pn.msg), plan.clone()),
+        Ok(Err(e)) => rec.count(&format!("skip:cross:{}", &e[..e.len().min(40)])),
+        Ok(Ok(())) => {}
     }
 }
 
